@@ -55,6 +55,7 @@ def run(tier):
                            (instrcheck.gen_act, small, act_variants(), "behaviour", None)])
     from mc.props import c18ao
     c18ao.run_into(res, tier)
+    c18ao.race_part(res, tier)
     res.coverage.update({
         "rule": "scenario families of C01/C02/C03 on forests<=%d and handler-script charts on forests<=%d x %d sequential "
                 "configurations {plain, instrumented, queued(on/off)} x {plain, spied} x live_spy x live_trace x {dispatch, "
@@ -68,7 +69,7 @@ def run(tier):
 
 def replay(w):
     res = Result(PID)
-    if w.get("ao"):
+    if w.get("ao") or w.get("ao_race"):
         from mc.props import c18ao
         return c18ao.replay(w)
     spec = hsmrun.norm(w)
